@@ -371,6 +371,12 @@ theorem processCtl_inv (c : Cfg) (s : St) (h : Inv c s) : Inv c (processCtl c s)
         · exact flush_core c s _ h rfl rfl rfl rfl rfl rfl rfl rfl rfl (Or.inr rfl) rfl rfl
       · exact { h with }
 
+theorem dropOut_inv (c : Cfg) (s : St) (h : Inv c s) : Inv c (dropOut s).1 := by
+  unfold dropOut
+  refine { h with botOutFwd := ?_, topOutDel := ?_ }
+  · intro b hb; simp at hb
+  · exact ⟨s.delivered, by simp⟩
+
 theorem tick_inv (c : Cfg) (s : St) (h : Inv c s) : Inv c (tick c s).1 := by
   unfold tick
   split
@@ -379,7 +385,7 @@ theorem tick_inv (c : Cfg) (s : St) (h : Inv c s) : Inv c (tick c s).1 := by
     split
     · exact processCtl_inv c s h
     · split
-      · exact processCtl_inv c s h
+      · exact dropOut_inv c _ (processCtl_inv c s h)
       · exact runPipeline_inv c _ (processCtl_inv c s h)
 
 /-! ### every op of the environment -/
@@ -498,7 +504,7 @@ theorem tick_log (c : Cfg) (s : St) : LogExt s (tick c s).1 := by
     split
     · exact processCtl_log c s
     · split
-      · exact processCtl_log c s
+      · exact LogExt.trans (processCtl_log c s) (LogExt.of_eq rfl rfl)
       · exact LogExt.trans (processCtl_log c s) hp
 
 theorem step_log (c : Cfg) (s : St) (o : Op) : LogExt s (step c s o) := by
